@@ -322,6 +322,7 @@ def lookup_post(c, st0, st1, x, kv, r):
 @R.add
 class get_unique_type(Contract):
     name = 'get_unique_type'
+    record_calls = True
 
     def kv(self, c):
         uk = c['unique_key']
@@ -402,7 +403,14 @@ def _mk_newtype(nm, words):
                  z3.Implies(z3.And(z3.Not(live_entry), r != 0),
                             z3.And(z3.Not(z3.Select(g(st0, 'ct_live'), r)), z3.Select(g(st1, 'ct_live'), r),
                                    ukey(c, st1, r) != 0, keyval(ukey(c, st1, r)) == kv))),
-                ('failure only with an exception', z3.Implies(r == 0, st1.err != 0))]
+                ('failure only with an exception', z3.Implies(r == 0, st1.err != 0)),
+                # (quantifier-free companion of the two clauses above: decidable also when they fail)
+                ('the cache is consulted exactly once, under a key made of exactly these components (%d bytes)' % n,
+                 z3.Implies(r != 0, z3.And(
+                     st1.gvar('tmp:calls:get_unique_type', B64) == st0.gvar('tmp:calls:get_unique_type', B64) + 1,
+                     z3.Extract(31, 0, st1.gvar('tmp:arg:get_unique_type:keylength', B64)) == n // 8,
+                     c.raw(st1, st1.gvar('tmp:arg:get_unique_type:unique_key', B64), 8) == w0,
+                     *([c.raw(st1, st1.gvar('tmp:arg:get_unique_type:unique_key', B64) + 8, 8) == w1] if n == 16 else []))))]
     K.__name__ = nm
     R.add(K)
     C27_FUNCS.append(nm)
